@@ -76,6 +76,7 @@ func genScanCases(prop, tier string, rng *rand.Rand) []genCase {
 			cfg.Fail = 2
 			cfg.Fleet = i%400 == 5
 		}
+		cfg.Ties = prop == "C07" || prop == "C08" || prop == "SCAN"
 		switch prop {
 		case "C11":
 			cfg.Dry = true
